@@ -141,6 +141,20 @@ def run(rep, tier):
                                 eo = 0.5 * math.degrees(math.atan2(2 * sxy, sx2 - sy2))
                                 if abs(((orient - eo) + 90.0) % 180.0 - 90.0) > 1e-6:
                                     bad = ('orientation', orient, eo)
+                            if bad is None:
+                                # the eigen-derived columns: semi-axes = square roots of the eigenvalues of that covariance matrix
+                                # (seed C16-r12 used a closed form with half the off-diagonal term)
+                                tr_, rt_ = 0.5 * (sx2 + sy2), math.hypot(0.5 * (sx2 - sy2), sxy)
+                                l1, l2 = tr_ + rt_, tr_ - rt_
+                                if l2 > 1e-9 * sc2:
+                                    with warnings.catch_warnings():
+                                        warnings.simplefilter('ignore')
+                                        g_ = {nm: float(np.asarray(getattr(getattr(st, nm), 'value', getattr(st, nm)))) for nm in ('semimajor_sigma', 'semiminor_sigma', 'elongation', 'eccentricity')}
+                                    e_ = {'semimajor_sigma': math.sqrt(l1), 'semiminor_sigma': math.sqrt(l2), 'elongation': math.sqrt(l1 / l2), 'eccentricity': math.sqrt(max(0.0, 1 - l2 / l1))}
+                                    for nm in e_:
+                                        if not close(g_[nm], e_[nm], 1e-7, max(1.0, abs(e_[nm]))):
+                                            bad = (nm, g_[nm], e_[nm])
+                                            break
         if bad:
             rep.violation(f'stat-ne-direct:{bad[0]}', f'ApertureStats.{bad[0]} = {bad[1]} but the direct statistic of the aperture '
                           f'pixel set is {bad[2]}', replay_of(c))
